@@ -67,10 +67,23 @@ func (e *errCount) SyntaxError(_ antlr.Recognizer, _ interface{}, _, _ int, _ st
 // whatever stands in the repository's pkg/go/gen: a hand edit of the generated lexer must not be able to talk the
 // harness's own self-checks ("is this rendering grammatical?") into agreeing with the library. Once the grammar file
 // changes, the repository's generated lexer is used (C19 ties it to the grammar).
-func LexTypes(s string) ([]string, int) {
+func LexTypes(s string) ([]string, int) { return lexTypes(s, pinnedLexerValid.Load()) }
+
+// LexTypesPinned always lexes with the lexer generated from the grammar at the pinned commit.
+func LexTypesPinned(s string) ([]string, int) { return lexTypes(s, true) }
+
+// DerivablePinnedLenient: is the document (after the lenient comment pre-pass) a sentence of the grammar AS PINNED
+// (pinned parser grammar, lexer generated from the pinned lexer grammar)? The layouts the properties list were legal
+// then; a later narrowing of the grammar does not make them illegal for the purpose of the properties.
+func DerivablePinnedLenient(dsl string) bool {
+	toks, errs := LexTypesPinned(StripLenient(dsl))
+	return errs == 0 && PinnedGrammar().Derives("main", toks)
+}
+
+func lexTypes(s string, pinned bool) ([]string, int) {
 	var lx antlr.Lexer
 	var names []string
-	if pinnedLexerValid.Load() {
+	if pinned {
 		l := pinnedlexer.NewOpenFGALexer(antlr.NewInputStream(s))
 		lx, names = l, l.SymbolicNames
 	} else {
